@@ -515,3 +515,108 @@ class Diff(Oracle):
 class DiffUord(Diff):
     name = "diff-uord"
     family = "uord"
+
+
+# ------------------------------------------------------------------------------------------------
+# C14: merge and dup
+# ------------------------------------------------------------------------------------------------
+class MergeDup(Oracle):
+    """C14: merge(T,S) contains every explicit source node with the source value, keeps the target rest, leaves S untouched
+    unless consumed, equals the destructive merge, is idempotent; merge(empty,S)=S; dup equals the original for every option
+    set and is independent of it (editing/freeing either leaves the other intact; run under ASan in the thorough tier)."""
+    name = "mergedup"
+    quick_sanitize = True
+
+    def gen(self, rng, tier, scale=1.0):
+        L = []
+        for i in range(self.n(tier, 120, 5000, scale)):
+            m, ig = gen_case(rng, userord=(i % 3 == 0), state=(i % 3 == 0), meta_prob=0.05 if i % 2 else 0.0)
+            t = ig.forest(m)
+            src = yanggen.cross(rng, t, ig.forest(m), m.nodes) if rng.random() < 0.8 else ig.forest(m)
+            s = Script()
+            s.ctx()
+            s.mod(m.yang())
+            s.parse(0, "x", yanggen.to_xml(t))               # 2 target
+            s.parse(1, "j", yanggen.to_json(src))            # 3 source
+            s.dump(1)                                        # 4
+            s.add("dup", "t0", "t2", DUPF)                   # 5
+            s.add("merge", "t2", "t1", 0)                    # 6 non-destructive
+            s.dump(1)                                        # 7 source unchanged
+            s.add("inv", "t2")                               # 8
+            s.add("dup", "t0", "t3", DUPF)
+            s.add("dup", "t1", "t4", DUPF)
+            s.add("merge", "t3", "t4", MERGE_DESTRUCT)       # 11
+            s.add("cmp", "t2", "t3", CMPX)                   # 12 same result
+            s.dump(2, 4); s.dump(3, 4)                       # 13 14
+            s.add("merge", "t2", "t1", 0)                    # 15 again
+            s.dump(2, 4)                                     # 16 idempotent
+            # source content present: diff(merged, source) has no create/replace of explicit nodes => validate by
+            # merging into the source: merge(S, merged) then S' superset; cheaper exact check: diff(merged,S) only deletes
+            s.add("diff", "t2", "t1", 0, "t5")               # 17
+            s.add("print", "t5", "x", PRINT_SIBLINGS | PRINT_SHRINK | WD_ALL)     # 18
+            # merge into empty
+            s.add("free", "t6")
+            s.add("merge", "t6", "t1", 0)                    # 20
+            s.add("cmp", "t6", "t1", CMP_FULL)               # 21
+            # dup options
+            s.add("dup", "t0", "t7", DUP_RECURSIVE)          # 22
+            s.add("cmp", "t7", "t0", CMP_FULL)               # 23
+            s.add("dup", "t0", "t8", DUPF)
+            s.add("cmp", "t8", "t0", CMPX)                   # 25
+            s.dump(8); s.dump(0)                             # 26 27
+            s.add("dup", "t0", "t10", DUPF | DUP_NO_META)
+            s.dump(10, 0); s.dump(0, 4)                      # 29 30
+            # independence: free / edit the copy, original intact; free original, copy intact
+            s.add("freen", "t8#%d" % rng.randrange(0, 6))
+            s.add("chg", "t7#%d" % rng.randrange(0, 10), hexs("1"))
+            s.dump(0)                                        # 33
+            s.add("dup", "t0", "t9", DUPF)
+            s.add("free", "t0")
+            s.dump(9)                                        # 36
+            s.add("inv", "t9")                               # 37
+            # to another context with the same module
+            s.ctx(1)
+            s.add("mod", "c1", "-", hexs(m.yang()))          # 39
+            s.add("dupctx", "t9", "c1", "t11", DUPF)         # 40
+            s.dump(11)                                       # 41
+            s.add("free", "t9")
+            s.add("print", "t11", "j", PRINT_SIBLINGS | PRINT_SHRINK | WD_ALL)   # 43
+            L.append(s.line())
+        return L
+
+    def judge(self, line, out):
+        if crashed(out):
+            return (None, "crash: " + out)
+        r = results(out)
+        if r[1] != "0" or rc(r[2]) != 0 or rc(r[3]) != 0:
+            return None
+        if r[6] != "0" or r[11] != "0":
+            return (None, "merge failed: %s %s" % (r[6], r[11]))
+        if r[7] != r[4]:
+            return (None, "non-destructive merge modified its source")
+        if r[8] != "ok":
+            return (None, "merged tree breaks an invariant: " + r[8])
+        if r[12] != "0" or r[13] != r[14]:
+            return (None, "destructive and non-destructive merge differ")
+        if r[15] != "0" or r[16] != r[13]:
+            return (None, "merge is not idempotent")
+        if r[17] != "0":
+            return (None, "diff(merged, source) failed")
+        d = payload(r[18]).decode("utf-8", "replace")
+        if 'operation="create"' in d or 'operation="replace"' in d:
+            # user-ordered moves show up as replace with unchanged values; tolerated only with key/value anchors
+            if 'yang:key=' not in d and 'yang:value=' not in d and 'yang:position=' not in d:
+                return (None, "merged tree lacks source content: diff(merged,source) = " + d[:300])
+        if r[20] != "0" or r[21] != "0":
+            return (None, "merge into an empty target is not a copy of the source: %s %s" % (r[20], r[21]))
+        if r[23] != "0" or r[25] != "0" or r[26] != r[27]:
+            return (None, "duplicate differs from the original")
+        if r[29] != r[30]:
+            return (None, "dup with NO_META differs from the original without metadata")
+        if r[33] != r[27]:
+            return (None, "editing/freeing a duplicate changed the original")
+        if r[36] != r[27] or r[37] != "ok":
+            return (None, "freeing the original changed the duplicate")
+        if r[39] == "0" and (r[40] != "0" or r[41] != r[27] or rc(r[43]) != 0):
+            return (None, "duplicate into another context differs: %s" % r[40])
+        return None
